@@ -151,6 +151,34 @@ def r10_1(prog, rep):
         rep.fail(rid, "_ical_pull/partial-line-guard", p.loc(), "a partial line is stashed without the remaining-size guard")
 
 
+def r10_1v(prog, rep):
+    """Every dereference of a local pointer that walks the input chunk is dominated by `ptr < end` (strict)."""
+    rid = "R10.1"
+    p = prog.fn("_ical_pull", "evical.c")
+    cfg = p.cfg
+    mf = MustFacts(cfg)
+    n = 0
+    for b, i, x, line in cfg.all_elems():
+        for nn in walk(x):
+            if nn.get("k") == "un" and nn["op"] == "*":
+                e = strip_casts(nn["e"])
+                if e.get("k") == "ref" and e.get("dk") == "local" and "char" in (e.get("t") or ""):
+                    n += 1
+                    facts = mf.at(b, i) or set()
+                    # facts established inside the same condition chain (++eol < ep && *eol == ' ') arrive through the && edge
+                    ok = any(fx[0] == "lt" and fx[1] == e["n"] for fx in facts)
+                    key = "_ical_pull/deref *%s#%d" % (e["n"], n)
+                    if ok:
+                        bound = [fx[2] for fx in facts if fx[0] == "lt" and fx[1] == e["n"]][0]
+                        rep.ok(rid, key, p.loc(nn.get("line", line)), "*%s is read only while %s < %s" % (e["n"], e["n"], bound))
+                    else:
+                        rep.fail(rid, key, p.loc(nn.get("line", line)),
+                                 "*%s is read without a strict `%s < end` on every path: one byte past the chunk is examined (stale bytes of the caller's "
+                                 "buffer decide whether lines are glued together)" % (e["n"], e["n"]))
+    if n < 1:
+        rep.broken_("rule=R10.1 no dereference of a chunk-walking pointer found in _ical_pull")
+
+
 def _esccpy_args_ok(f, call, cursor, sname, ssize):
     cfg = f.cfg
 
@@ -311,6 +339,7 @@ def r10_3(prog, rep):
 def run(prog, rep, tier, snap):
     rep.rule("R10.1", "stash discipline: bounded stores in esccpy, cursor writes, subscripts, partial-line guard", 10)
     r10_1(prog, rep)
+    r10_1v(prog, rep)
     rep.rule("R10.2", "line consumption and pull progress", 3)
     r10_2(prog, rep)
     rep.rule("R10.3", "state machine exhaustiveness", 12)
